@@ -56,10 +56,10 @@ def run(pid, tier, plan, oracle_name, monitors_name=None, assumptions=(), extra_
     total = explore.Summary()
     per_prog = []
     # wall-clock budget: programs not started when it is used up are listed as skipped in the
-    # evidence (never counted as explored); thorough defaults to 40 min per check,
+    # evidence (never counted as explored); thorough defaults to 25 min per check,
     # VF_BUDGET_S=0 lifts it
     env_b = os.environ.get("VF_BUDGET_S")
-    budget = (float(env_b) or None) if env_b is not None else (2400.0 if tier == "thorough" else None)
+    budget = (float(env_b) or None) if env_b is not None else (1500.0 if tier == "thorough" else None)
     t0 = time.time()
     try:
         # programs explored at bound 0 (default schedule only) are dispatched in bulk
